@@ -127,8 +127,14 @@ BASE_TREE = {
              'preamble_indent': 2},
     'changes': [
         {'attrs': {'preamble': 'c0', 'meta': {'c': [0]}},
-         'files': [{'meta': {'path': 'a'}, 'diff': b'@@ -1 +1 @@\n-a\n+b\n'},
-                   {'meta': {'path': 'b'}, 'diff_type': 'binary'}]},
+         'files': [{'meta': {'path': 'a', 'stats': {'insertions': 1,
+                                                     'deletions': 1,
+                                                     'lines changed': 2,
+                                                     'x-tool': 7}},
+                    'diff': b'@@ -1 +1 @@\n-a\n+b\n'},
+                   {'meta': {'path': 'b', 'stats': {'insertions': 3}},
+                    'diff': b'@@ -1 +1 @@\n-c\n+d\n',
+                    'diff_type': 'binary'}]},
         {'attrs': {'encoding': 'latin-1'},
          'files': [{'meta': {'path': 'c'}, 'diff_encoding': 'utf-8'}]},
     ],
@@ -243,11 +249,16 @@ FULL_TREE = {
                    'preamble_line_endings': 'dos',
                    'preamble_mimetype': 'text/markdown',
                    'meta_encoding': 'utf-16', 'meta_format': 'json'},
-         'files': [{'meta': {'path': 'a'}, 'diff': b'@@ -1 +1 @@\n-a\n+b\n',
+         'files': [{'meta': {'path': 'a', 'stats': {'insertions': 1,
+                                                     'deletions': 1,
+                                                     'lines changed': 2,
+                                                     'x-tool': 7}},
+                    'diff': b'@@ -1 +1 @@\n-a\n+b\n',
                     'encoding': 'utf-8', 'meta_encoding': 'utf-8',
                     'meta_format': 'json', 'diff_encoding': 'utf-8',
                     'diff_line_endings': 'unix', 'diff_type': 'text'},
-                   {'meta': {'path': 'b'}, 'diff': b'x\n',
+                   {'meta': {'path': 'b', 'stats': {'insertions': 3}},
+                    'diff': b'x\n',
                     'encoding': 'utf-8', 'meta_encoding': 'utf-8',
                     'meta_format': 'json', 'diff_encoding': 'utf-8',
                     'diff_line_endings': 'unix', 'diff_type': 'binary'}]},
@@ -572,7 +583,8 @@ def pairs(draw):
 
     for _ in range(n):
         kind = draw(hs.sampled_from(['set', 'set', 'set', 'unset', 'deep',
-                                     'respell', 'respell',
+                                     'respell', 'respell', 'toggle-eol',
+                                     'toggle-eol',
                                      'reorder-keys', 'reorder-keys',
                                      'add-change', 'del-change',
                                      'swap-changes', 'add-file', 'del-file',
@@ -593,6 +605,23 @@ def pairs(draw):
         if kind == 'set':
             name = draw(hs.sampled_from(names))
             attrs[name] = draw(hs.sampled_from(PERTURB_VALUES[name]))
+        elif kind == 'toggle-eol':
+            # the last line gains or loses its terminator: other content
+            named = [k for k in ('preamble', 'diff')
+                     if isinstance(attrs.get(k), (str, bytes)) and attrs[k]]
+
+            if named:
+                k = draw(hs.sampled_from(named))
+                v = attrs[k]
+                lf = '\n' if isinstance(v, str) else b'\n'
+                crlf = '\r\n' if isinstance(v, str) else b'\r\n'
+
+                if v.endswith(crlf):
+                    attrs[k] = v[:-2]
+                elif v.endswith(lf):
+                    attrs[k] = v[:-1]
+                else:
+                    attrs[k] = v + draw(hs.sampled_from([lf, lf, crlf]))
         elif kind == 'respell':
             # the same codec under another registered name is another
             # option value (and other bytes in the header)
